@@ -28,7 +28,8 @@ MANIFEST = {
 }
 
 THEOREMS = ["C08_separator_sound", "C08_no_spurious_separator", "C08_tokens_preserved", "C08_conforms_refuted",
-            "C08_witness_D15", "C08_witness_D27", "C08_fixed_D13_D14_D23_conform", "C08_token_shapes_exact_sheet"]
+            "C08_witness_D15", "C08_witness_D27", "C08_fixed_D13_D14_D23_conform", "C08_token_shapes_exact_sheet",
+            "C08_low_token_shapes_exact_sheet"]
 
 
 def run(res):
